@@ -1493,3 +1493,15 @@ mut("revert_D23", ["C09"], "PROG-2|db::DB::make_room_for_write", patch="revert_D
 mut("revert_D10", ["C09"], "ORD-12|<db::DB as std::ops::Drop>::drop|the-worker-is-stopped-whoever-else-holds-it", patch="revert_D10_drop_unwraps_arc_get_mut.diff", note="closing with a live iterator panics in Drop (defect D10)")
 mut("revert_D25", ["C15", "C13"], "GRD-37|tables::table::Table::read_block_from_disk", patch="revert_D25_block_handle_unchecked.diff", note="a damaged footer handle aborts the process in the allocator (defect D25)")
 mut("revert_D24", ["C15"], "MAN-2|logs::LogReader::read_record", patch="revert_D24_strict_reader_skips_orphans.diff", note="the manifest reader skips a fragment without a start (defect D24)")
+
+# ---- round 11: second blind-spot review
+mut("mem_prev_finds_greater_or_equal", ["C04", "C03"], "MEM-1|<memtable::SkipListMemTableIter as iterator::RainDbIterator>::prev|primitives", patch="mem_prev_finds_greater_or_equal.diff",
+    note="memtable iterator steps back with the forward primitive")
+mut("mem_seek_keyed_by_current", ["C04", "C01"], "MEM-1|<memtable::SkipListMemTableIter as iterator::RainDbIterator>::seek|keyed-by-param2", patch="mem_seek_keyed_by_current.diff",
+    note="memtable seek never moves backwards (keyed by max(current, target))")
+mut("caching_prev_refreshes_only_when_valid", ["C04", "C03"], "CACHE-1|<iterator::CachingIterator as iterator::RainDbIterator>::prev|cache-refreshed-after-the-child-moved", patch="caching_prev_refreshes_only_when_valid.diff",
+    note="a child that ran off its front keeps is_valid = true in the cache")
+mut("caching_refresh_keeps_entry_when_key_unchanged", ["C04", "C01"], "CACHE-1|iterator::CachingIterator::update_cached_values|refreshes-validity-and-entry", patch="caching_refresh_keeps_entry_when_key_unchanged.diff",
+    note="the cached entry is only filled once")
+mut("memfile_read_exact_reports_invalid_input", ["C12", "C16", "C02"], "FS-4|<fs::fs_mem::LockableInMemoryFile as std::io::Read>::read_exact", patch="seed_C12-T_memfile_read_exact_invalid_input.diff",
+    note="seed C12-T: an overridden read_exact reports the end of the file as InvalidInput; a log torn inside a block trailer fails the open")
